@@ -239,7 +239,7 @@ DUNITS = [None, "ms", "mV"]
 
 
 def _scalable(tu, ru):
-    base = {"ms": "s", "s": "s", "mV": "V"}
+    base = {"ms": "s", "s": "s", "mV": "V", "kV^2": "V^2"}   # 'foo' is not a unit: never convertible
     return tu in base and ru in base and base[tu] == base[ru]
 
 
@@ -268,12 +268,12 @@ def _tag_expect(E, multi, rank, npos, next_, units, dunits, has_ref, d2units=Non
                     incompatible = True
         if incompatible:
             want.append(E.ReferenceUnitsIncompatible)
-    if any(u and not (u in ("ms", "s", "mV")) for u in units):
-        want.append(E.InvalidUnit)
+    if any(u and not (u in ("ms", "s", "mV", "kV^2")) for u in units):
+        want.append(E.InvalidUnit)            # tag units must be SI (compound allowed by is_si)
     return want
 
 
-KNOBS = ["npos", "next", "nun", "unit", "dimunit", "noref", "rows", "ref2unit"]
+KNOBS = ["npos", "next", "nun", "unit", "dimunit", "noref", "rows", "ref2unit", "bothunit"]
 
 
 def _recipe(rank, budget, multi, i1, v1, s1, i2, v2, s2):
@@ -303,6 +303,10 @@ def _recipe(rank, budget, multi, i1, v1, s1, i2, v2, s2):
         elif knob == "ref2unit":
             assume(0 <= v < 3 and 0 <= sl < rank)
             r["d2v"], r["d2slot"] = v, sl
+        elif knob == "bothunit":
+            # the SAME string as tag unit and as unit of the matching dimension of both references
+            assume(0 <= v < 3)
+            r["both"] = (_pick(["foo", "kV^2", "s"], v), 0)        # always the first slot / dimension
         elif knob == "noref":
             r["has_ref"] = False
         else:
@@ -314,7 +318,7 @@ def _recipe(rank, budget, multi, i1, v1, s1, i2, v2, s2):
 
 def _ob_tag(i1: int, v1: int, s1: int, i2: int, v2: int, s2: int) -> bool:
     """
-    pre: 0 <= i1 < 9 and 0 <= i2 < 9
+    pre: 0 <= i1 < 10 and 0 <= i2 < 10
     post: __return__
     """
     import numpy as np
@@ -331,6 +335,11 @@ def _ob_tag(i1: int, v1: int, s1: int, i2: int, v2: int, s2: int) -> bool:
     units = ["ms"] * nun
     if nun > 0:
         units[r["slot"]] = _pick(TUNITS, r["uv"])
+    both = r.get("both")
+    if both is not None and nun > both[1]:
+        units[both[1]] = both[0]
+        dunits[both[1]] = both[0]
+        ref.dimensions[both[1]].unit = both[0]
     tag = blk.create_tag("tg", "t", [0.5] * max(npos, 1))
     if npos == 0:
         tag.position = None
@@ -340,6 +349,8 @@ def _ob_tag(i1: int, v1: int, s1: int, i2: int, v2: int, s2: int) -> bool:
         tag._h5group.write_data("units", list(units), nixio_dt_string())
     d2units = ["ms"] * rank
     d2units[r["d2slot"]] = _pick(DUNITS, r["d2v"])
+    if both is not None and nun > both[1]:
+        d2units[both[1]] = both[0]
     if has_ref:
         ref2 = blk.create_data_array("ref2", "t", data=np.zeros((3, 2)[:rank]))
         for d in range(rank):
@@ -347,7 +358,24 @@ def _ob_tag(i1: int, v1: int, s1: int, i2: int, v2: int, s2: int) -> bool:
         tag.references.append(ref)
         tag.references.append(ref2)
     want = _tag_expect(E, False, rank, npos, next_, units, dunits, has_ref, d2units)
-    return _same_report(_errors(f), {tag.id: want})
+    bad_dims = {}
+    if both is not None and nun > both[1] and not _atomic(both[0]):
+        # the arrays themselves are reported for the non-atomic dimension unit
+        bad_dims = {ref.id: [E.InvalidDimensionUnit.format(both[1] + 1)]}
+        if has_ref:
+            bad_dims[ref2.id] = [E.InvalidDimensionUnit.format(both[1] + 1)]
+    exp = dict(bad_dims)
+    exp[tag.id] = want
+    if not _same_report(_errors(f), exp):
+        return False
+    # validating again after a change reflects the change (no state kept between validations)
+    if has_ref and nun >= 1 and both is None:
+        ref.dimensions[0].unit = "mV"
+        dunits2 = list(dunits)
+        dunits2[0] = "mV"
+        want2 = _tag_expect(E, False, rank, npos, next_, units, dunits2, has_ref, d2units)
+        return _same_report(_errors(f), {tag.id: want2})
+    return True
 
 
 def nixio_dt_string():
@@ -357,7 +385,7 @@ def nixio_dt_string():
 
 def _ob_multi_tag(i1: int, v1: int, s1: int, i2: int, v2: int, s2: int) -> bool:
     """
-    pre: 0 <= i1 < 9 and 0 <= i2 < 9
+    pre: 0 <= i1 < 10 and 0 <= i2 < 10
     post: __return__
     """
     import numpy as np
@@ -375,6 +403,11 @@ def _ob_multi_tag(i1: int, v1: int, s1: int, i2: int, v2: int, s2: int) -> bool:
     units = ["ms"] * nun
     if nun > 0:
         units[r["slot"]] = _pick(TUNITS, r["uv"])
+    both = r.get("both")
+    if both is not None and nun > both[1]:
+        units[both[1]] = both[0]
+        dunits[both[1]] = both[0]
+        ref.dimensions[both[1]].unit = both[0]
     pos = blk.create_data_array("pos", "t", data=np.zeros((2, npos)))
     pos.append_set_dimension()
     pos.append_set_dimension()
@@ -388,6 +421,8 @@ def _ob_multi_tag(i1: int, v1: int, s1: int, i2: int, v2: int, s2: int) -> bool:
         mt._h5group.write_data("units", list(units), nixio_dt_string())
     d2units = ["ms"] * rank
     d2units[r["d2slot"]] = _pick(DUNITS, r["d2v"])
+    if both is not None and nun > both[1]:
+        d2units[both[1]] = both[0]
     if has_ref:
         ref2 = blk.create_data_array("ref2", "t", data=np.zeros((3, 2)[:rank]))
         for d in range(rank):
@@ -397,7 +432,12 @@ def _ob_multi_tag(i1: int, v1: int, s1: int, i2: int, v2: int, s2: int) -> bool:
     want = _tag_expect(E, True, rank, npos, next_, units, dunits, has_ref, d2units)
     if has_ref and next_ > 0 and rows_differ and next_ == npos:
         want.append(E.PositionsExtentsMismatch)       # shapes differ in the row count
-    return _same_report(_errors(f), {mt.id: want})
+    exp = {mt.id: want}
+    if both is not None and nun > both[1] and not _atomic(both[0]):
+        exp[ref.id] = [E.InvalidDimensionUnit.format(both[1] + 1)]
+        if has_ref:
+            exp[ref2.id] = [E.InvalidDimensionUnit.format(both[1] + 1)]
+    return _same_report(_errors(f), exp)
 
 
 def validate():
@@ -453,7 +493,7 @@ OBLIGATIONS = [
        replay=lambda a: _real("_ob_entity_attrs", a)),
     Ob("tag_consistency", _ob_tag, timeout=900, timeout_by_tier={"thorough": 2700},
        partition_by_tier={"quick": [(1, 1), (2, 1)],
-                          "thorough": [(r, (2, k)) for r in (1, 2) for k in range(0, 7)]},
+                          "thorough": [(r, (2, k)) for r in (1, 2) for k in list(range(0, 7)) + [8]]},
        functions=[_V + "check_tag", _V + "get_dim_units", _V + "tag_units_match_refs_units"],
        replay=lambda a: _real("_ob_tag", a),
        outside="quick: single injections, thorough: pairs; one reference; unit tables"),
